@@ -223,7 +223,7 @@ def subsets(n, doc_only):
     return out
 
 
-def configs_for(rng, n, rich):
+def configs_for(rng, n, rich, csd_max=6):
     """list of (class, opts or None, tag).  `rich` = enumerate more option combinations (small n)."""
     cf = []
     cf.append(("TopDownInitialize", None, "default"))
@@ -263,7 +263,7 @@ def configs_for(rng, n, rich):
     cf.append(("UCGEInitialize", None, "default"))
     cf.append(("IsometryInitialize", None, "default"))
     cf.append(("IsometryInitialize", {"scheme": "ccd"}, "ccd"))
-    if n <= 6:
+    if n <= csd_max:
         cf.append(("IsometryInitialize", {"scheme": "csd"}, "csd"))
     if n >= 2:
         cf.append(("IsometryInitialize", {"scheme": "knill"}, "knill"))
@@ -419,7 +419,7 @@ def evaluate(ctx, deep):
                 vec = gen_state(rng, n, fam)
                 rich = (n <= 4 and rep == 0) if not deep else (n <= 5 and rep == 0)
                 as_list = bool(rng.random() < 0.15)
-                for (cls, opts, tag) in configs_for(rng, n, rich):
+                for (cls, opts, tag) in configs_for(rng, n, rich, csd_max=6 if deep else 5):
                     if n >= 8 and cls == "IsometryInitialize" and opts and opts.get("scheme") == "knill" and rep > 0:
                         continue
                     short = cls.replace("Initialize", "")
